@@ -5,7 +5,8 @@
 //! whose outer object is P's global component — gets hold of something (an owned `Puppet` /
 //! `PuppetInner` of package Q returned by Q's code, Q's global component, a native bucket / proof /
 //! vault, an address reservation for P's or Q's blueprint made by P, by Q or by the transaction, its
-//! own objects), optionally parks it in a heap key-value store and takes it out again, and then
+//! own objects), optionally parks it in a heap key-value store and takes it out again (or leaves it
+//! there and keeps only the transient reference of the open entry), and then
 //! performs exactly one capability-sensitive SystemApi call between two log markers.
 //!
 //! Oracle: a capability model written from the property (not from system.rs) says whether the call
@@ -759,5 +760,5 @@ pub fn check() -> Check {
     .assume("the puppet blueprints stand for arbitrary blueprint code: they call SystemApi only")
     .assume("globalize / new_object by another blueprint of the same package is observed but not judged: the engine documents a package-level rule there ('only the package can globalize a node')")
     .min_nontrivial_pct(40.0)
-    .part(Part::new("scripts", 4000, 200_000, 200, case))
+    .part(Part::new("scripts", 12_000, 300_000, 200, case))
 }
